@@ -169,7 +169,11 @@ def gen_stacks(run):
             for n in (0, 1, 2):
                 for login in (False, True):
                     if outer is None and inner is None and not login:
-                        continue        # the single-instance cases above
+                        # the single-instance cases above; still assembled once through BuildMiddleware
+                        for logout in (False, True):
+                            jobs.append((None, n, "via+logout" if logout else "via", None,
+                                         pad([run.rng.choice(FAILING) for _ in range(run.rng.randint(0, n + 1))], n)))
+                        continue
                     budget = (n + 1) * ((outer or 0) + 1) * ((inner or 0) + 1)
                     scs = [[run.rng.choice(FAILING) for _ in range(budget)]]                      # exhausts the whole stack
                     j = run.rng.randint(0, budget - 1)
@@ -179,6 +183,12 @@ def gen_stacks(run):
                         scs.append([run.rng.choice(EDGE if run.rng.random() < 0.4 else FAILING) for _ in range(L)])
                     for sc in scs:
                         jobs.append((outer, n, login, inner, pad(sc, budget - 1)))
+                    if not login:
+                        # the same stack assembled by the code under test: shoot.Use options on a RestConf and
+                        # RestConf.BuildMiddleware (logging outermost, as EnableLogging places it)
+                        for logout in (False, True):
+                            for sc in scs[:2] + scs[-1:]:
+                                jobs.append((outer, n, "via+logout" if logout else "via", inner, pad(sc, budget - 1)))
     return jobs
 
 
@@ -188,8 +198,10 @@ def stack_profile(outer, inner, login):
         t.append("outer%d" % outer)
     if inner is not None:
         t.append("inner%d" % inner)
-    if login:
+    if login is True:
         t.append("login")
+    elif login:                      # "via" / "via+logout"
+        t += ["viabuild"] + (["logout"] if "logout" in login else [])
     return "+".join(t) or "-"
 
 
@@ -199,9 +211,11 @@ def coq_optz(x):
 
 def coq_scase(job, obs):
     outer, n, login, inner, script = job
-    return ("{| s_outer := %s; s_n := (%d)%%Z; s_login := %s; s_inner := %s; s_script := [%s]; "
+    via = isinstance(login, str)
+    return ("{| s_via := %s; s_logout := %s; s_outer := %s; s_n := (%d)%%Z; s_login := %s; s_inner := %s; s_script := [%s]; "
             "s_obs := {| o_calls := %d; o_resp := %s; o_err := %s; o_sleeps := %d |} |}"
-            % (coq_optz(outer), n, "true" if login else "false", coq_optz(inner),
+            % ("true" if via else "false", "true" if via and "logout" in login else "false",
+               coq_optz(outer), n, "true" if login is True else "false", coq_optz(inner),
                "; ".join(coq_outcome(i, t) for i, t in enumerate(script)),
                obs["calls"], coq_opt(obs["resp"]), coq_opt(obs["err"]), obs["sleeps"]))
 
@@ -331,7 +345,8 @@ def main(run):
         run.violation({"kind": "correspondence-broken",
                        "theorem": "C20_stack_refines_model / C20_nested_at_most_product / C20_logging_commutes",
                        "correspondence": "L1:C20:rtprobe stack vs Model/RetryStack.v",
-                       "stack": {"outer": outer, "n": n, "logging_inside": login, "inner": inner},
+                       "stack": {"outer": outer, "n": n, "logging_inside": login, "inner": inner,
+                                 "note": "logging_inside = 'via' / 'via+logout': stack assembled by shoot.Use + RestConf.BuildMiddleware"},
                        "script": sc, "observed": o, "wire_call_budget": budget,
                        "how": "go run harness/go/cmd/rtprobe <<< '0 %d 20000 %s %s'" % (n, ",".join(sc), stack_profile(outer, inner, login))},
                       no_input=(o["calls"] <= budget))
@@ -373,6 +388,7 @@ def main(run):
         "timing_mismatches_not_reproduced": len(mism) - (len(confirmed) - len(sconfirmed)),
         "stack_cases": len(sjobs),
         "stack_rule": ("RetryMiddleware(outer) . RetryMiddleware(n) . [LoggingMiddleware] . RetryMiddleware(inner) over the scripted wire, "
+                       "by hand and (without inner logging, with EnableLogging off/on) assembled by shoot.Use options + RestConf.BuildMiddleware over a replaced http.DefaultTransport, "
                        "outer, inner in {none, 0, 1, 2}, n in 0..2, scripts padded to the stack's budget (outer+1)(n+1)(inner+1): "
                        "one exhausting script, one late success and random ones per stack, compared with Model/RetryStack.v in Coq"),
         "stack_calls_distribution": {str(k): sum(1 for o in sobs if o["calls"] == k) for k in sorted({o["calls"] for o in sobs})},
